@@ -29,3 +29,18 @@ pub fn be_write_u64_at_slice(dest: &mut [u8], a: usize, b: usize, n: u64)
     requires a + 8 <= b <= old(dest)@.len()
     ensures final(dest)@ == old(dest)@.subrange(0, a as int) + be_bytes_u64(n) + old(dest)@.subrange(a + 8, old(dest)@.len() as int)
 { unimplemented!() }
+pub open spec fn be_bytes_u128(n: u128) -> Seq<u8> {
+    seq![(n >> 120) as u8, (n >> 112) as u8, (n >> 104) as u8, (n >> 96) as u8, (n >> 88) as u8, (n >> 80) as u8, (n >> 72) as u8, (n >> 64) as u8,
+         (n >> 56) as u8, (n >> 48) as u8, (n >> 40) as u8, (n >> 32) as u8, (n >> 24) as u8, (n >> 16) as u8, (n >> 8) as u8, n as u8]
+}
+#[verifier::external_body]
+pub fn be_write_u128_at_slice(dest: &mut [u8], a: usize, b: usize, n: u128)
+    requires a + 16 <= b <= old(dest)@.len()
+    ensures final(dest)@ == old(dest)@.subrange(0, a as int) + be_bytes_u128(n) + old(dest)@.subrange(a + 16, old(dest)@.len() as int)
+{ unimplemented!() }
+// `BigEndian::write_u16(dest, v)` on a whole slice (the real call panics unless dest.len() >= 2)
+#[verifier::external_body]
+pub fn be_write_u16_slice(dest: &mut [u8], n: u16)
+    requires old(dest)@.len() >= 2
+    ensures final(dest)@ == be_bytes_u16(n) + old(dest)@.subrange(2, old(dest)@.len() as int)
+{ unimplemented!() }
